@@ -12,6 +12,7 @@ import re
 import shutil
 import subprocess
 import sys
+import threading
 import time
 from pathlib import Path
 
@@ -23,6 +24,7 @@ GUARD = "XMLSCHEMA_VERIF_TRACE"
 NCPU = min(16, os.cpu_count() or 1)
 
 LEVEL = "model_checking"
+_LOCK = threading.Lock()
 
 
 class MachineryError(Exception):
@@ -105,8 +107,10 @@ class Ctx:
         The spec directory is copied to a private work dir so that generated MC files and metadir
         never touch the committed tree. `files` are extra files written next to the spec.
         """
-        run = self.work / f"tlc-{len(self.tlc_runs)}{('-' + tag) if tag else ''}"
-        run.mkdir()
+        with _LOCK:
+            self._nrun = getattr(self, "_nrun", 0) + 1
+            run = self.work / f"tlc-{self._nrun}{('-' + tag) if tag else ''}"
+            run.mkdir()
         for f in SPEC.glob("*.tla"):
             shutil.copy(f, run / f.name)
         for name, text in (files or {}).items():
@@ -141,6 +145,13 @@ class Ctx:
                                  + "\n".join(res.lines[-25:]))
         shutil.rmtree(run / "meta", ignore_errors=True)
         return res
+
+    def parallel(self, thunks, width=4):
+        """Run independent TLC jobs (callables) concurrently; results in order."""
+        from concurrent.futures import ThreadPoolExecutor
+        with ThreadPoolExecutor(max_workers=width) as ex:
+            futs = [ex.submit(t) for t in thunks]
+            return [f.result() for f in futs]
 
     # -------------------------------------------------------------- verdicts
     def findings(self):
